@@ -1,7 +1,73 @@
-//! C09: not built yet.
-use anyhow::{bail, Result};
-use serde_json::Value;
+//! C09: Mappings::merge.
+//!
+//! ops  {"op":"merge","A":tree(s,a),"B":tree(s,b)}  -> {"ok":b,"v":tree(s,a,b)|[]}
+//! Entries are stored under the key their JSON key spells, so trees whose content disagrees with the key
+//! (conflicting descriptor / parameter index under one key) reach the real code as such.
+use anyhow::{Context, Result};
+use rand::rngs::StdRng;
+use rand::{Rng, SeedableRng};
+use serde_json::{json, Value};
+use quill::tree::mappings::Mappings;
+use crate::gen_quill::*;
+use crate::proj_quill::*;
+use super::res_tree;
 
-pub fn exec(_v: &Value) -> Result<Value> { bail!("C09: driver not built") }
+pub fn exec(v: &Value) -> Result<Value> {
+	match v["op"].as_str().context("op")? {
+		"merge" => {
+			let a: Mappings<2, (Ns, Ns)> = json_to_tree_keyed(&v["A"])?;
+			let b: Mappings<2, (Ns, Ns)> = json_to_tree_keyed(&v["B"])?;
+			Ok(res_tree(Mappings::<2, (Ns, Ns, Ns)>::merge(&a, &b)))
+		},
+		op => anyhow::bail!("C09: unknown op {op}"),
+	}
+}
 
-pub fn gen(_seed: u64, _n: usize) -> Result<Vec<Value>> { bail!("C09: driver not built") }
+/// Random pairs sharing the first namespace: B is derived from A (same source keys, other names), then both are
+/// edited independently (removals, additions, comment edits), so that overlap is partial at every level.
+pub fn gen(seed: u64, n: usize) -> Result<Vec<Value>> {
+	let mut r = StdRng::seed_from_u64(seed ^ 0xC09);
+	let mut out = vec![];
+	while out.len() < n {
+		let cfg = TreeCfg { classes: r.gen_range(0..14), p_missing: *pick(&mut r, &[0.0, 0.2, 0.5]), unicode: r.gen_bool(0.3),
+			param_src: r.gen_bool(0.5), root_doc: r.gen_bool(0.3), p_doc: *pick(&mut r, &[0.0, 0.2, 0.5]), ..TreeCfg::default() };
+		let mut a = gen_tree(&mut r, &cfg);
+		let mut b = a.clone();
+		let conflicts = r.gen_bool(0.3);
+		rename_side(&mut r, &mut b, conflicts);
+		b["ns"][1] = json!("nsb");
+		if r.gen_bool(0.05) { b["ns"][0] = json!("other"); }
+		for _ in 0..r.gen_range(0..3) { structural_edit(&mut r, &cfg, &mut a); }
+		for _ in 0..r.gen_range(0..3) { structural_edit(&mut r, &cfg, &mut b); }
+		if r.gen_bool(0.1) { b = gen_tree(&mut r, &cfg); b["ns"][1] = json!("nsb"); }
+		out.push(json!({"op": "merge", "A": a, "B": b}));
+	}
+	Ok(out)
+}
+
+/// gives every entry of the copy another target name; comments are dropped, kept equal or (if allowed) changed
+fn rename_side(r: &mut StdRng, t: &mut Value, conflicts: bool) {
+	fn walk(r: &mut StdRng, n: &mut Value, conflicts: bool) {
+		if let Some(Value::Object(k)) = n.get_mut("kids") {
+			for (_, c) in k.iter_mut() {
+				let old = c["names"][1].as_str().unwrap_or("").to_owned();
+				c["names"][1] = if r.gen_bool(0.2) { json!("") } else { json!(format!("b_{}{}", old.replace('/', "_"), r.gen_range(0..9))) };
+				if c["kind"] == "c" { if let Some(s) = c["names"][1].as_str() { if !s.is_empty() { c["names"][1] = json!(format!("pb/{}", s.replace('$', "_"))); } } }
+				match r.gen_range(0..10) {
+					0..=4 => { c["doc"] = json!([]); },
+					5 if conflicts => { c["doc"] = json!(["the other side says"]); },
+					_ => {},
+				}
+				if conflicts && c["kind"] == "p" && r.gen_bool(0.1) { c["names"][0] = json!("otherSrc"); }
+				walk(r, c, conflicts);
+			}
+		}
+	}
+	if r.gen_bool(0.5) { t["doc"] = json!([]); }
+	walk(r, t, conflicts);
+}
+
+fn structural_edit(r: &mut StdRng, cfg: &TreeCfg, t: &mut Value) {
+	// removals and additions only (names in the first namespace are never touched): reuse edit_tree with namespace 1
+	edit_tree(r, cfg, t, 1, false);
+}
